@@ -54,9 +54,12 @@ def first_pred_failure(M, ops, pred, derive=lambda s: s):
     return None
 
 
-def load_corpus(prop):
+def load_corpus(prop, shared=None):
     cases = []
-    for f in sorted(glob.glob(os.path.join(VERIF, "corpus", prop, "*.json"))):
+    files = sorted(glob.glob(os.path.join(VERIF, "corpus", prop, "*.json")))
+    if shared:
+        files += sorted(glob.glob(os.path.join(VERIF, "corpus", shared, "*.json")))
+    for f in files:
         try:
             j = json.load(open(f))
             if "ops" in j:
@@ -70,7 +73,7 @@ def run_sm(ctx, M, driver, fields, pred, n_hist, hist_len=(1, 30), weights=None,
            corr_name="correspondence", extra_histories=(), derive=lambda s: s):
     """returns (disagreements, histories)"""
     rng = ctx.rng
-    histories = [copy.deepcopy(h) for h in load_corpus(ctx.prop)] + [copy.deepcopy(h) for h in extra_histories]
+    histories = [copy.deepcopy(h) for h in load_corpus(ctx.prop, getattr(M, 'CORPUS', None))] + [copy.deepcopy(h) for h in extra_histories]
     ctx.stats["corpus_histories"] = len(histories)
     histories += [M.gen_history(rng, hist_len[0], hist_len[1], weights) for _ in range(n_hist)]
     all_snaps = []
